@@ -219,6 +219,19 @@ eval(struct expr *expr)
 			if (l->kind != EXPRCONST)
 				break;
 			return l->u.constant.u ? r : l;
+		case TDIV:
+		case TMOD:
+			if (l->kind != EXPRCONST || r->kind != EXPRCONST)
+				break;
+			if (r->type->prop & PROPINT) {
+				/* division by zero and overflow are not constant expressions (and must not trap here) */
+				if (r->u.constant.u == 0)
+					break;
+				if (l->type->u.basic.issigned && l->u.constant.i == LLONG_MIN && r->u.constant.i == -1)
+					break;
+			}
+			binary(expr, expr->op, l, r);
+			break;
 		default:
 			if (l->kind != EXPRCONST || r->kind != EXPRCONST)
 				break;
